@@ -305,6 +305,7 @@ def analyse(prog, crates):
             fields[k] = IV.Iv(lo, hi, v.src, v.exact)
     findings = []
     n_ops = 0
+    callers = None
     for f in fns:
         fi = None
         loads = None
@@ -409,8 +410,21 @@ def analyse(prog, crates):
                             continue
                         adt_, _, fld_ = tag[6:].rpartition(".")
                         for k_, op_, kv_, pred_, truth_ in cond_refinements:
-                            if k_ != (adt_, fld_) or not under_predicate(f, b, pred_, truth_):
+                            if k_ != (adt_, fld_):
                                 continue
+                            if not under_predicate(f, b, pred_, truth_):
+                                # a helper all of whose call sites sit under the predicate (`if use_lf_frame() { self.check(h)? }`)
+                                if callers is None:
+                                    callers = {}
+                                    for g in fns:
+                                        for gb, gt in g.calls():
+                                            cc = callee(gt)
+                                            if cc:
+                                                callers.setdefault(cc.get("res") or cc["fn"], []).append((g, gb))
+                                                callers.setdefault(cc["fn"], []).append((g, gb))
+                                sites = callers.get(f.path, [])
+                                if not sites or not all(under_predicate(g, gb, pred_, truth_) for g, gb in sites):
+                                    continue
                             v_ = a if tag in a.src else c
                             lo_, hi_ = v_.lo, v_.hi
                             if op_ == ">":
